@@ -47,10 +47,10 @@ class _AddressList(Writeable):
 
     @property
     def _value(self) -> Writeable:
-        if self.headers:
-            addresses: list[Address] = []
-            for header in self.headers:
-                addresses.extend(header.addresses)
+        addresses: list[Address] = []
+        for header in self.headers:
+            addresses.extend(header.addresses)
+        if addresses:
             return List([self._parse(address)
                          for address in addresses])
         else:
@@ -75,6 +75,29 @@ class _ParamsList(Writeable):
             values = [(String.build(key), String.build(value))
                       for key, value in self.params.items()]
             return List(chain.from_iterable(values))
+        else:
+            return Nil()
+
+    def write(self, writer: WriteStream) -> None:
+        self._value.write(writer)
+
+    def __bytes__(self) -> bytes:
+        return bytes(self._value)
+
+
+class _Disposition(Writeable):
+
+    def __init__(self, header: ContentDispositionHeader | None) -> None:
+        super().__init__()
+        self.header = header
+
+    @property
+    def _value(self) -> Writeable:
+        header = self.header
+        if header is not None and header.content_disposition:
+            # body-fld-dsp = "(" string SP body-fld-param ")" / nil
+            return List([String.build(header.content_disposition),
+                         _ParamsList(header.params)])
         else:
             return Nil()
 
@@ -257,7 +280,7 @@ class MultipartBodyStructure(BodyStructure):
         parts = [part.extended for part in self.parts]
         return List([_Concatenated(parts), String.build(self.subtype),
                      _ParamsList(self.content_type_params),
-                     String.build(self.content_disposition),
+                     _Disposition(self.content_disposition),
                      String.build(self.content_language),
                      String.build(self.content_location)])
 
@@ -321,7 +344,7 @@ class ContentBodyStructure(BodyStructure):
                                   fallback=b'7BIT'),
                      Number(self.size),
                      String.build(self.body_md5),
-                     String.build(self.content_disposition),
+                     _Disposition(self.content_disposition),
                      String.build(self.content_language),
                      String.build(self.content_location)])
 
@@ -381,7 +404,7 @@ class TextBodyStructure(ContentBodyStructure):
                                   fallback=b'7BIT'),
                      Number(self.size), Number(self.lines),
                      String.build(self.body_md5),
-                     String.build(self.content_disposition),
+                     _Disposition(self.content_disposition),
                      String.build(self.content_language),
                      String.build(self.content_location)])
 
@@ -451,7 +474,7 @@ class MessageBodyStructure(ContentBodyStructure):
                      self.body_structure.extended,
                      Number(self.lines),
                      String.build(self.body_md5),
-                     String.build(self.content_disposition),
+                     _Disposition(self.content_disposition),
                      String.build(self.content_language),
                      String.build(self.content_location)])
 
